@@ -340,7 +340,7 @@ pub fn main(seed: u64, tier: &str, only: Option<&str>) {
     out::stat("code.operator_instances", u.cases.len());
     out::stat("code.operators_untypable", u.untypable.len());
     // 2. generated modules
-    let n = if tier == "thorough" { 4000 } else { 250 };
+    let n = if tier == "thorough" { 4000 * crate::out::thorough_scale() } else { 250 };
     for case in 0..n {
         let mut rng = Rng::new(seed ^ 0xc0de, case as u64);
         let mut g = if case % 3 == 0 { GenCfg::mvp() } else { GenCfg::random(&mut rng) };
